@@ -51,6 +51,8 @@ func runC14(c *Ctx) {
 	if m := newTQModel(c); m != nil {
 		m.deliveries()
 	}
+	// a delayed blob whose download is retried later is announced only if the batch collector keeps running
+	collectorLeavesOnlyWhenNothingIsOwed(c, "R2")
 	c.RulePrefix = saved
 	transferRecvChecked(c, "R3")
 	requestHeaderVerbatim(c, "R1")
@@ -528,6 +530,7 @@ func runC14(c *Ctx) {
 func ConstIntOK(v ssa.Value) (int64, bool) { return ConstInt(v) }
 
 var c14Canaries = []Canary{
+	{Name: "r6-availability-channel-closed-twice", ExpectKey: "C14.R5#availability-channel-closed-once", Edits: []Edit{{File: "commands/command_filter_process.go", Find: "\n\twatch := q.Watch()\n\n\t// pending is used to keep track of an ordered list of available\n\t// `*tq.Transfer`'s that cannot be written to \"available\" without\n\t// blocking.\n", Repl: "\n\twatch := q.Watch()\n\n\t// However we leave, \"available\" must be closed so that the reader in\n\t// list_available_blobs learns that the queue is done.\n\tdefer close(available)\n\n\t// pending is used to keep track of an ordered list of available\n\t// `*tq.Transfer`'s that cannot be written to \"available\" without\n\t// blocking.\n"}, {File: "commands/command_filter_process.go", Find: "\t\t\t\t// If watch is closed, the \"tq\" is done, and\n\t\t\t\t// there are no items on the buffer.  Return\n\t\t\t\t// immediately.\n\t\t\t\tclose(available)\n\t\t\t\treturn\n\t\t\t}\n\n", Repl: "\t\t\t\t// If watch is closed, the \"tq\" is done, and\n\t\t\t\t// there are no items on the buffer.  Return\n\t\t\t\t// immediately.\n\t\t\t\treturn\n\t\t\t}\n\n"}}},
 	{Name: "r5-full-buffer-is-eof", ExpectKey: "C14.R1#incomingOrCached", Edits: []Edit{{File: "commands/command_filter_process.go", Find: "\tif err == io.EOF {\n\t\treturn bytes.NewReader(buf), nil\n\t}\n\treturn io.MultiReader(bytes.NewReader(buf), r), err", Repl: "\tif n < cap(buf) {\n\t\treturn bytes.NewReader(buf), nil\n\t}\n\treturn io.MultiReader(bytes.NewReader(buf), r), err"}}},
 	{Name: "r4-header-trimmed", ExpectKey: "C14.R1#request-header", Edits: []Edit{{File: "git/filter_process_scanner.go", Find: "req.Header[v[0]] = v[1]", Repl: "req.Header[v[0]] = strings.TrimSpace(v[1])"}}},
 	{Name: "clean-no-first-status", ExpectKey: "C14.R1#exchange:clean", Edits: []Edit{{File: "commands/command_filter_process.go", Find: "		case \"clean\":\n			s.WriteStatus(statusFromErr(nil))\n", Repl: "		case \"clean\":\n"}}},
